@@ -621,6 +621,7 @@ func (sp *ServiceProvider) SignArtifactResolve(req *ArtifactResolve) error {
 	if err != nil {
 		return err
 	}
+	req.Signature = nil // signing again must not sign over the previous signature
 	assertionEl := req.Element()
 
 	signedRequestEl, err := signingContext.SignEnveloped(assertionEl)
@@ -640,6 +641,7 @@ func (sp *ServiceProvider) SignAuthnRequest(req *AuthnRequest) error {
 	if err != nil {
 		return err
 	}
+	req.Signature = nil // signing again must not sign over the previous signature
 	assertionEl := req.Element()
 
 	signedRequestEl, err := signingContext.SignEnveloped(assertionEl)
@@ -1374,6 +1376,7 @@ func (sp *ServiceProvider) SignLogoutRequest(req *LogoutRequest) error {
 		return err
 	}
 
+	req.Signature = nil // signing again must not sign over the previous signature
 	assertionEl := req.Element()
 	signedRequestEl, err := signingContext.SignEnveloped(assertionEl)
 	if err != nil {
@@ -1624,6 +1627,7 @@ func (sp *ServiceProvider) SignLogoutResponse(resp *LogoutResponse) error {
 		return err
 	}
 
+	resp.Signature = nil // signing again must not sign over the previous signature
 	assertionEl := resp.Element()
 	signedRequestEl, err := signingContext.SignEnveloped(assertionEl)
 	if err != nil {
